@@ -30,7 +30,9 @@ def edit_module(program, modname, editor):
     tree = ast.parse(mod.src)
     try:
         applied = editor(tree)
-    except (LookupError, AttributeError, TypeError, ValueError):
+    except Exception:   # pylint: disable=broad-except
+        # an editor that does not find its target (StopIteration from next(),
+        # IndexError ...) yields a skipped variant, never a broken check
         applied = False
     if not applied:
         return None
